@@ -471,6 +471,29 @@ async def run_real(env, cat, d, call, atts):
     env.sleep_hook[1] = sess
     env.sleeps.clear()
     d.logger.infos.clear()
+    if getattr(d, 'verif_hung', False):
+        return ('hung',)         # an earlier call on this object never came back; it stays unusable
+    # Everything the call waits for is scripted (responses, sleeps), so it finishes without the loop
+    # ever going idle.  A call that is still not done after HANG_SECONDS of real time waits for
+    # something nobody will provide (a lost semaphore permit, an event never set): outcome `hung`.
+    task = asyncio.ensure_future(_run_call(env, d, call))
+    done, _pending = await asyncio.wait({task}, timeout=HANG_SECONDS if not _hangs[0] else 0.5)
+    if not done:
+        _hangs[0] += 1                             # (later hangs of the same run are given less time)
+        task.cancel()
+        await asyncio.wait({task}, timeout=0.2)    # (it may not even react to the cancellation)
+        d.verif_hung = True
+        return ('hung',)
+    if task.cancelled():
+        return ('exc', asyncio.CancelledError())
+    return task.result()
+
+
+HANG_SECONDS = 5
+_hangs = [0]
+
+
+async def _run_call(env, d, call):
     k = call[0]
     try:
         if k == 'H':
@@ -542,6 +565,8 @@ def canon_line(env, cat, d, cfg, call, outcome):
         res = 'ret ' + canon_ret(call, outcome[1])
     elif outcome[0] == 'exc':
         res = 'exc ' + canon_exc(cat, env.dm, outcome[1])
+    elif outcome[0] == 'hung':
+        res = 'hung'
     else:
         res = 'pending'
     contacted = []
@@ -556,8 +581,11 @@ def canon_line(env, cat, d, cfg, call, outcome):
     if k == 'H':
         line += ' | h ' + ('-' if d._height is None else val_wire_from_py(d._height))
     elif k == 'F':
-        with open(env.filename, 'rb') as f:
-            line += ' | f ' + (f.read().hex() or '-')
+        try:
+            with open(env.filename, 'rb') as f:
+                line += ' | f ' + (f.read().hex() or '-')
+        except FileNotFoundError:          # (a call on an object that hung earlier is not even started)
+            line += ' | f missing'
     return line
 
 
@@ -592,6 +620,9 @@ def direct_check(env, cat, d, cfg, n, u0, call, atts, n_faults, truth, outcome, 
     init = env.def_init if cfg is None else Fraction(cfg[0], 64)
     mx = env.def_max if cfg is None else Fraction(cfg[1], 64)
     L = n_faults
+    if outcome[0] == 'hung':
+        return [('returns_real', f'the call neither returned nor raised: after {sess.pos} attempts it waits for something '
+                                 f'no scripted response or sleep provides (the daemon object is unusable from then on)')]
     # --- C18_returns_real: first non-transient attempt decides, exactly L retries, nothing later used
     if truth[0] == 'none':      # an empty request list: no contact at all
         if outcome != ('ret', []) or sess.pos != 0 or env.sleeps:
